@@ -1569,18 +1569,33 @@ func runC07_18(c *core.Ctx) {
 	deferred := false
 	for _, d := range f.Graph().Defers {
 		if lit, ok := ast.Unparen(d.Call.Fun).(*ast.FuncLit); ok {
-			ast.Inspect(lit.Body, func(n ast.Node) bool {
-				if is, ok := n.(*ast.IfStmt); ok {
-					if x, y, op, ok := flow.Cmp(is.Cond); ok && op == token.EQL && flow.ObjOf(f.Info, x) == owner && flow.IsNil(f.Info, y) {
-						for _, call := range callsIn(is.Body, false) {
-							if flow.IsPkgFunc(f.Info, call, unixPkg, "Close") {
-								deferred = true
+			lg := f.litGraph(lit)
+			for _, b := range lg.Blocks {
+				for _, n := range b.Nodes {
+					for _, call := range flow.Calls(n) {
+						if !flow.IsPkgFunc(f.Info, call, unixPkg, "Close") || len(call.Args) != 1 {
+							continue
+						}
+						fdv := flow.ObjOf(f.Info, call.Args[0])
+						if guardedBy(b, func(e *flow.Edge) (found, neutral bool) {
+							if e.Cond == nil || e.Tag != nil {
+								return false, e.Cond == nil
 							}
+							x, y, op, ok := flow.Cmp(e.Cond)
+							if !ok {
+								return false, false
+							}
+							if flow.ObjOf(f.Info, x) == owner && flow.IsNil(f.Info, y) && (op == token.EQL) == e.Sense {
+								return true, false
+							}
+							// a test of the descriptor variable itself (fd >= 0)
+							return false, fdv != nil && (flow.ObjOf(f.Info, x) == fdv || flow.ObjOf(f.Info, y) == fdv)
+						}) {
+							deferred = true
 						}
 					}
 				}
-				return true
-			})
+			}
 		}
 	}
 	at2 := f.Decl.Pos()
@@ -1592,4 +1607,156 @@ func runC07_18(c *core.Ctx) {
 		why = "no deferred clean-up closes the duplicated descriptor while the gnet conn does not exist yet: every failure before that point leaks the duplicate"
 	}
 	c.Check(why == "", f.Name, "the duplicate is closed on every failure", at2, "deferred unix.Close while the owner is nil; owner.Close() before failure returns afterwards", why)
+}
+
+func init() {
+	register(&core.Rule{ID: "C07.19", Prop: "C07", MinSites: 1,
+		Desc: "no close of a local descriptor variable that was never assigned: a local declared `var fd int` (zero value: descriptor 0, which belongs to the application) is handed to close(2) – directly or by a deferred clean-up registered at that point – only where it was assigned on every path (by an assignment or inside a callback given to a call already made); a clean-up that tests the variable itself is exempt",
+		Run:  runC07_19})
+}
+
+func runC07_19(c *core.Ctx) {
+	allFuncs(c, func(f *fn) {
+		if f.Decl.Body == nil {
+			return
+		}
+		// units: the declaration's body and every function literal's body, each with its own flow graph
+		var units []*ast.BlockStmt
+		units = append(units, f.Decl.Body)
+		ast.Inspect(f.Decl.Body, func(n ast.Node) bool {
+			if fl, ok := n.(*ast.FuncLit); ok {
+				units = append(units, fl.Body)
+			}
+			return true
+		})
+		isCloseOf := func(call *ast.CallExpr) *types.Var {
+			if (flow.IsPkgFunc(f.Info, call, unixPkg, "Close") || flow.IsPkgFunc(f.Info, call, "syscall", "Close")) && len(call.Args) == 1 {
+				if v, ok := flow.ObjOf(f.Info, call.Args[0]).(*types.Var); ok && !v.IsField() {
+					return v
+				}
+			}
+			return nil
+		}
+		for _, unit := range units {
+			// candidates: `var v int` without a value, declared directly in this unit
+			var cands []*types.Var
+			idx := map[*types.Var]uint{}
+			inspectUnit := func(visit func(n ast.Node) bool) {
+				ast.Inspect(unit, func(n ast.Node) bool {
+					if fl, ok := n.(*ast.FuncLit); ok && fl.Body != unit {
+						return false
+					}
+					return visit(n)
+				})
+			}
+			inspectUnit(func(n ast.Node) bool {
+				if vs, ok := n.(*ast.ValueSpec); ok && len(vs.Values) == 0 {
+					for _, nm := range vs.Names {
+						if v, ok := f.Info.Defs[nm].(*types.Var); ok {
+							if b, ok := v.Type().Underlying().(*types.Basic); ok && b.Info()&types.IsInteger != 0 && len(cands) < 30 {
+								idx[v] = uint(len(cands))
+								cands = append(cands, v)
+							}
+						}
+					}
+				}
+				return true
+			})
+			if len(cands) == 0 {
+				continue
+			}
+			// keep those that reach close(2) somewhere below this unit
+			closed := map[*types.Var]bool{}
+			ast.Inspect(unit, func(n ast.Node) bool {
+				if call, ok := n.(*ast.CallExpr); ok {
+					if v := isCloseOf(call); v != nil {
+						if _, ok := idx[v]; ok {
+							closed[v] = true
+						}
+					}
+				}
+				return true
+			})
+			if len(closed) == 0 {
+				continue
+			}
+			assignsIn := func(n ast.Node, deep bool) uint64 {
+				var out uint64
+				ast.Inspect(n, func(x ast.Node) bool {
+					if _, ok := x.(*ast.FuncLit); ok && !deep {
+						return false
+					}
+					switch y := x.(type) {
+					case *ast.AssignStmt:
+						for _, l := range y.Lhs {
+							if v, ok := flow.ObjOf(f.Info, l).(*types.Var); ok {
+								if k, ok := idx[v]; ok {
+									out |= 1 << k
+								}
+							}
+						}
+					case *ast.IncDecStmt:
+						if v, ok := flow.ObjOf(f.Info, y.X).(*types.Var); ok {
+							if k, ok := idx[v]; ok {
+								out |= 1 << k
+							}
+						}
+					}
+					return true
+				})
+				return out
+			}
+			g := flow.New(c.P.Fset, f.Info, unit)
+			p := &flow.Problem{Must: true}
+			p.Node = func(b *flow.Block, i int, n ast.Node, in uint64) uint64 {
+				if _, isDefer := n.(*ast.DeferStmt); isDefer {
+					return in // runs at the returns, not here
+				}
+				return in | assignsIn(n, true) // (a callback given to a call made here counts: the call has returned)
+			}
+			sol := g.Solve(p)
+			testsVar := func(body ast.Node, v *types.Var) bool {
+				found := false
+				ast.Inspect(body, func(x ast.Node) bool {
+					if be, ok := x.(*ast.BinaryExpr); ok {
+						switch be.Op {
+						case token.EQL, token.NEQ, token.LSS, token.LEQ, token.GTR, token.GEQ:
+							if flow.ObjOf(f.Info, be.X) == types.Object(v) || flow.ObjOf(f.Info, be.Y) == types.Object(v) {
+								found = true
+							}
+						}
+					}
+					return !found
+				})
+				return found
+			}
+			sol.Walk(func(b *flow.Block, i int, n ast.Node, before uint64) {
+				check := func(call *ast.CallExpr, guardScope ast.Node, how string) {
+					v := isCloseOf(call)
+					if v == nil || !closed[v] {
+						return
+					}
+					if guardScope != nil && testsVar(guardScope, v) {
+						c.Ok(f.Name, how+" of "+v.Name(), call.Pos(), "the clean-up tests "+v.Name()+" itself")
+						return
+					}
+					c.Check(before&(1<<idx[v]) != 0, f.Name, how+" of "+v.Name(), call.Pos(), v.Name()+" was assigned on every path to this point",
+						v.Name()+" is declared without a value (it holds 0) and can reach close(2) – "+how+" here – on a path on which nothing was assigned to it yet: descriptor 0 (the application's standard input, or whatever it opened first) is closed by the framework")
+				}
+				if ds, ok := n.(*ast.DeferStmt); ok {
+					if fl, ok := ds.Call.Fun.(*ast.FuncLit); ok {
+						for _, call := range callsIn(fl.Body, true) {
+							check(call, fl.Body, "deferred close")
+						}
+					} else {
+						check(ds.Call, nil, "deferred close")
+					}
+					return
+				}
+				for _, call := range flow.Calls(n) {
+					check(call, nil, "close")
+				}
+			})
+		}
+	})
 }
